@@ -15,10 +15,20 @@ def dur_spellings(rnd, L):
     if L % 604800 == 0: sp.append('P%dW' % (L // 604800))
     return sp
 
+ECHSQ = None     # set by run(): the client of the tree under test; the first hop of a user's file is echsq add (it re-writes the task)
+
 def echsd_hop(drv, spool_parent, ics_event_lines):
     """queue the event in the daemon harness, let its first occurrence come due, return the VTODO handed to echsx"""
     spool = tempfile.mkdtemp(prefix='sp', dir=spool_parent)
     req = '\n'.join(['BEGIN:VCALENDAR', 'VERSION:2.0', 'METHOD:PUBLISH'] + ics_event_lines + ['END:VCALENDAR', ''])
+    if ECHSQ:
+        # user file -> echsq: what echsq add would send for this file (its dry run prints the request)
+        uf = spool + '/user.ics'; open(uf, 'w').write(req)
+        p = subprocess.run([ECHSQ, '-n', 'add', uf], capture_output=True, text=True, timeout=30, cwd=spool)
+        os.unlink(uf)
+        if p.returncode != 0 or 'BEGIN:VEVENT' not in p.stdout:
+            shutil.rmtree(spool, ignore_errors=True); return None
+        req = p.stdout
     cmds = ['A\t1000\t' + rrgen.esc(req), 'T\t11', 'R', 'DA']
     ev, rc = daemon.run_in_spool(drv, spool, cmds, {})
     shutil.rmtree(spool, ignore_errors=True)
@@ -116,6 +126,8 @@ def run(tier, seed):
            ('Australia/Sydney', '20241006T015930', '20241006T030030', (2024, 10, 5, 15, 59, 30), (2024, 10, 5, 16, 0, 30)),
            ('Europe/Berlin', '20240615T100000', '20240615T100007', (2024, 6, 15, 8, 0, 0), (2024, 6, 15, 8, 0, 7))]
     for z in ZSW: cases.append(('DTENDTZ', 0, z))
+    global ECHSQ
+    ECHSQ = f'{B}/echsq'
     sp = f'{wd}/spool'; xd = f'{wd}/x'; os.makedirs(sp, exist_ok=True); os.makedirs(xd, exist_ok=True)
     def one(c):
         kind, L, text = c
